@@ -12,7 +12,10 @@
                                              subscription its aliases and its unsubscribe aliases (register_alias with
                                              the alias AS WRITTEN: aliases are not namespaced); results are ignored
      build_unsubscribe_method                "subscribe.." -> "unsubscribe.." when no `unsubscribe =` is given
-     RpcFnArg::name                          the `#[argument(rename = ..)]` string, else the identifier
+     RpcFnArg::name                          the `#[argument(rename = ..)]` string, else the identifier's text
+                                             (syn::Ident::to_string(): a raw identifier keeps its `r#`, so an un-renamed
+                                             `r#type` is "r#type" on the wire, with aliases "r_type" / "rType"; names are
+                                             arbitrary byte strings here, nothing assumes [a-z_][a-z0-9_]* )
      encode_params (client stub)             no parameters: ArrayParams::new() (=> no `params` member);
                                              param_kind = array: ArrayParams, insert in declaration order;
                                              param_kind = map: ObjectParams, insert(name, value) in declaration order
@@ -42,7 +45,7 @@
        compiled family are produced by tools/translators/macroapi.py from the same trait text, and the two are tied by the
        differential run;
      - a `Serialize` impl that fails (the stub panics, as documented), `with_extensions`, generics/bounds, doc attributes,
-       `deprecated`, raw identifiers beyond their text, the compile-time checks (duplicate names, `__RpcParams__`);
+       `deprecated`, the compile-time checks (duplicate names, `__RpcParams__`);
      - non-ASCII parameter names in the heck transcription (bytes >= 0x80 are treated as caseless alphanumerics);
      - serde's leniency on by-name calls beyond the strict JSON parse: unknown members are skipped by serde without
        interpreting them (lone surrogate escapes and nesting deeper than the recursion limit pass there), here the whole
@@ -157,6 +160,11 @@ Arguments Api {ty}. Arguments a_namespace {ty}. Arguments a_separator {ty}. Argu
 
 (* ================================================================ 3. names and the registrations of into_rpc *)
 
+(* key lists (one per parameter of a method) no two of which have a key in common: whatever member key a by-name request
+   carries, at most one parameter accepts it *)
+Definition keys_disjoint (kss : list (list bytes)) : Prop :=
+  forall i j ki kj k, nth_error kss i = Some ki -> nth_error kss j = Some kj -> In k ki -> In k kj -> i = j.
+
 Section Names.
 Context {ty : Type}.
 
@@ -265,6 +273,10 @@ Fixpoint params_distinct (ps : list (param ty)) : bool :=
   | [] => true
   | p :: r => forallb (fun k => forallb (fun q => negb (has_key k q)) r) (keys_of p) && params_distinct r
   end.
+
+(* the parameter lists of the trait's functions: methods, then subscriptions, in declaration order (the row order of
+   Gen.MacroApiGen.family_keys) *)
+Definition item_params (a : api ty) : list (list (param ty)) := map m_params (a_methods a) ++ map s_params (a_subs a).
 
 Definition nth_method (a : api ty) (t : N) : option (method ty) := nth_error (a_methods a) (N.to_nat t).
 Definition nth_sub (a : api ty) (t : N) : option (subscription ty) :=
